@@ -30,6 +30,8 @@ use yverif::shell::{BuiltinFuture, Config, VEnv, VSys, run_with};
 thread_local! {
     static STATE: RefCell<Option<Rc<RefCell<SystemState>>>> = const { RefCell::new(None) };
     static LOG: RefCell<Vec<(String, String, Vec<Entry>)>> = const { RefCell::new(Vec::new()) };
+    /// inodes that have received an error message at some point of the run (sticky)
+    static TAINT: RefCell<Vec<Rc<RefCell<Inode>>>> = const { RefCell::new(Vec::new()) };
 }
 
 /// (fd, identity of the open file description, cloexec)
@@ -51,14 +53,33 @@ fn harness_byte(b: u8) -> bool {
     b <= 8 || b == 10
 }
 
-/// A file that received an error message (anything but harness bytes) has unknown content.
-fn tainted(name: &str, inode: &Inode) -> bool {
+/// A file that received an error message (anything but harness bytes) has unknown content, and
+/// the offsets of the descriptions on it are unknown from then on (also after a truncation).
+fn tainted(name: &str, inode: &Rc<RefCell<Inode>>) -> bool {
     if name == "err" {
         return true;
     }
-    match &inode.body {
+    // strong references: a freed inode's address must not be mistaken for a new file
+    if TAINT.with(|t| t.borrow().iter().any(|i| Rc::ptr_eq(i, inode))) {
+        return true;
+    }
+    let now = match &inode.borrow().body {
         FileBody::Regular { content, .. } => !content.iter().all(|b| harness_byte(*b)),
         _ => false,
+    };
+    if now {
+        TAINT.with(|t| t.borrow_mut().push(Rc::clone(inode)));
+    }
+    now
+}
+
+/// Every snapshot first looks at all named files, so that a message is noticed before a later
+/// command can truncate the file (a message is always followed by a `mark` or the end of the run).
+fn scan_taint(state: &SystemState) {
+    for (name, path) in PATHS {
+        if let Ok(i) = state.file_system.get(path) {
+            tainted(name, &i);
+        }
     }
 }
 
@@ -78,6 +99,7 @@ fn hex(b: &[u8]) -> String {
 }
 
 fn snapshot(state: &SystemState, pid: yash_env::job::Pid) -> (String, Vec<Entry>) {
+    scan_taint(state);
     let p = &state.processes[&pid];
     let mut out = vec![];
     let mut entries = vec![];
@@ -98,7 +120,7 @@ fn snapshot(state: &SystemState, pid: yash_env::job::Pid) -> (String, Vec<Entry>
             (false, true) => "w",
             (false, false) => "n",
         };
-        let off = if tainted(name, &inode.borrow()) {
+        let off = if tainted(name, &inode) {
             "T".to_string()
         } else {
             match ofd.seek(SeekFrom::Current(0)) {
@@ -143,7 +165,7 @@ fn fds_main(env: &mut VEnv, _args: Vec<Field>) -> BuiltinFuture<'_> {
                 let ofd = b.open_file_description.borrow();
                 let inode = Rc::clone(ofd.inode());
                 let name = file_name(&st, &inode);
-                tainted(name, &inode.borrow())
+                tainted(name, &inode)
             })
         });
         let mut buf = [0u8; 2];
@@ -356,6 +378,7 @@ fn run_case(case: &str) -> (String, String) {
     let salt = case.bytes().fold(0xcbf29ce484222325u64, |h, b| (h ^ b as u64).wrapping_mul(0x100000001b3));
     let script = script_of(&c, salt);
     LOG.with(|l| l.borrow_mut().clear());
+    TAINT.with(|t| t.borrow_mut().clear());
     let mut config = Config::new(&script);
     if c.noclobber {
         config.options.push((ShellOption::Clobber, State::Off));
@@ -374,11 +397,12 @@ fn run_case(case: &str) -> (String, String) {
                 let path = PATHS.iter().find(|p| p.0 == name).unwrap().1;
                 let text = match st.file_system.get(path) {
                     Err(_) => "x".to_string(),
-                    Ok(inode) => {
-                        let inode = inode.borrow();
+                    Ok(inode_rc) => {
+                        let is_tainted = tainted(name, &inode_rc);
+                        let inode = inode_rc.borrow();
                         match &inode.body {
                             FileBody::Regular { content, .. } => {
-                                if tainted(name, &inode) {
+                                if is_tainted {
                                     "T".to_string()
                                 } else {
                                     hex(content)
